@@ -334,6 +334,7 @@ type nativeResult struct {
 	Failures []string `json:"failures"`
 	Known    []string `json:"known"`
 	Panic    string   `json:"panic"`
+	PanicAt  []string `json:"panic_at,omitempty"`
 	PanicKF  []string `json:"panic_kf"`
 	Assume   bool     `json:"assume_failed"`
 	Reached  []string `json:"reached"`
